@@ -5,9 +5,12 @@ package checks
 import (
 	"encoding/json"
 	"fmt"
+	"path/filepath"
 	"sort"
 	"strings"
 	"sync"
+	"sync/atomic"
+	"syscall"
 
 	"github.com/inbucket/inbucket/v3/pkg/extension/event"
 	"github.com/inbucket/inbucket/v3/pkg/policy"
@@ -36,11 +39,17 @@ type c16OrdSpec struct {
 	// of its event dispatch, not about two clients, so the order of the racing message's two events
 	// is counted, not alarmed on.  Exactly-once and one-at-a-time are checked all the same.
 	Racing bool
-	Bound  [2]int
+	// FaultAt k > 0: the k-th file-system call (create, open, remove, rename) that the file store
+	// makes during the operation written "deliver! <mailbox>" fails with EIO - one departure from
+	// the environment's default answer; everything before and after it succeeds.  Whatever the store
+	// makes of the failure, the events and the listings must still agree: a message that is listed
+	// was announced, a message announced as deleted had been announced as stored.
+	FaultAt int
+	Bound   [2]int
 }
 
 func c16OrdSpecs() []c16OrdSpec {
-	return []c16OrdSpec{
+	specs := []c16OrdSpec{
 		{ID: "O1-mem-deliver-deliver-delete", Store: sys.StoreSpec{Backend: "mem"}, Ops: []string{"deliver x", "deliver x", "delete first"}, Bound: [2]int{2, 3}},
 		{ID: "O2-file-deliver-delete-deliver", Store: sys.StoreSpec{Backend: "file"}, Ops: []string{"deliver x", "delete first", "deliver x"}, Bound: [2]int{2, 3}},
 		{ID: "O3-mem-cap1-deliver-deliver", Store: sys.StoreSpec{Backend: "mem", Cap: 1}, Ops: []string{"deliver x", "deliver x"}, Bound: [2]int{2, 3}},
@@ -61,6 +70,24 @@ func c16OrdSpecs() []c16OrdSpec {
 		{ID: "O8-mem-purge-vs-delivery", Store: sys.StoreSpec{Backend: "mem"}, Init: []string{"deliver x", "deliver x"},
 			Ops: []string{"purge x"}, Ops2: []string{"deliver x"}, Racing: true, Bound: [2]int{2, 3}},
 	}
+	// one failing file-system call inside a delivery: into a mailbox that exists (a delivery to an
+	// existing mailbox makes four such calls; k = 6 is past the last call of either variant and
+	// serves as the fault-free control), then the mailbox is purged; and into a new mailbox
+	for k := 1; k <= 6; k++ {
+		specs = append(specs,
+			c16OrdSpec{ID: fmt.Sprintf("O10-file-delivery-fs-fault-%d-then-purge", k), Store: sys.StoreSpec{Backend: "file"}, Init: []string{"deliver x"},
+				Ops: []string{"deliver! x", "purge x"}, FaultAt: k, Bound: [2]int{1, 2}},
+			c16OrdSpec{ID: fmt.Sprintf("O11-file-first-delivery-fs-fault-%d", k), Store: sys.StoreSpec{Backend: "file"}, Init: []string{"deliver x"},
+				Ops: []string{"deliver! y", "deliver x"}, FaultAt: k, Bound: [2]int{1, 2}})
+	}
+	for k := 1; k <= 6; k++ {
+		specs = append(specs,
+			c16OrdSpec{ID: fmt.Sprintf("O12-file-delete-fs-fault-%d-then-retry", k), Store: sys.StoreSpec{Backend: "file"}, Init: []string{"deliver x", "deliver x"},
+				Ops: []string{"delete! first", "delete first"}, FaultAt: k, Bound: [2]int{1, 2}},
+			c16OrdSpec{ID: fmt.Sprintf("O13-file-purge-fs-fault-%d-then-retry", k), Store: sys.StoreSpec{Backend: "file"}, Init: []string{"deliver x", "deliver x"},
+				Ops: []string{"purge! x", "purge x"}, FaultAt: k, Bound: [2]int{1, 2}})
+	}
+	return specs
 }
 
 type c16Inv struct {
@@ -77,9 +104,25 @@ func c16OrdScenario(c *fw.Ctx, sp c16OrdSpec) schedScenario {
 		var delivered []string // ids in delivery order
 		final := map[string]bool{}
 		finalOK := false
+		var armed atomic.Bool
+		var fsCalls atomic.Int64
+		fired := ""
 		leaked := inBubble(c.T, func() {
 			e = vsched.Run(cfg, func() (func(), []vsched.Thread, func()) {
 				s := sys.New(sys.Spec{Store: sp.Store, SMTP: sys.DefaultSMTP(), NoHub: true})
+				vsched.FSFault = nil
+				if sp.FaultAt > 0 {
+					vsched.FSFault = func(op, path string) error {
+						if armed.Load() && fsCalls.Add(1) == int64(sp.FaultAt) {
+							fired = op + " " + filepath.Base(path)
+							if strings.HasSuffix(path, ".raw") {
+								fired = op + " <id>.raw"
+							}
+							return syscall.EIO
+						}
+						return nil
+					}
+				}
 				handler := func(kind string) func(event.MessageMetadata) {
 					return func(m event.MessageMetadata) {
 						mu.Lock()
@@ -101,7 +144,7 @@ func c16OrdScenario(c *fw.Ctx, sp c16OrdSpec) schedScenario {
 						for _, op := range ops {
 							f := strings.Fields(op)
 							switch f[0] {
-							case "deliver", "deliverbig":
+							case "deliver", "deliverbig", "deliver!":
 								body := "Subject: o\r\n\r\nbody\r\n"
 								if f[0] == "deliverbig" {
 									body = "Subject: o\r\n\r\n" + sizedBody(600)
@@ -109,7 +152,9 @@ func c16OrdScenario(c *fw.Ctx, sp c16OrdSpec) schedScenario {
 								from, _ := s.Policy.ParseOrigin("s@o.test")
 								rc, _ := s.Policy.NewRecipient(f[1] + "@x.test")
 								before, _ := st.GetMessages(f[1])
+								armed.Store(f[0] == "deliver!")
 								_ = s.Mgr.Deliver(from, []*policy.Recipient{rc}, "Received: from c ([pipe]) by verif.test\r\n", []byte(body))
+								armed.Store(false)
 								after, _ := st.GetMessages(f[1])
 								known := map[string]bool{}
 								for _, m := range before {
@@ -122,7 +167,7 @@ func c16OrdScenario(c *fw.Ctx, sp c16OrdSpec) schedScenario {
 										mu.Unlock()
 									}
 								}
-							case "delete":
+							case "delete", "delete!":
 								mu.Lock()
 								id := ""
 								if len(delivered) > 0 {
@@ -130,10 +175,14 @@ func c16OrdScenario(c *fw.Ctx, sp c16OrdSpec) schedScenario {
 								}
 								mu.Unlock()
 								if i := strings.IndexByte(id, '/'); i >= 0 {
+									armed.Store(f[0] == "delete!")
 									_ = st.RemoveMessage(id[:i], id[i+1:])
+									armed.Store(false)
 								}
-							case "purge":
+							case "purge", "purge!":
+								armed.Store(f[0] == "purge!")
 								_ = st.PurgeMessages(f[1])
+								armed.Store(false)
 							case "scan":
 								// what the retention scanner does on every pass (nothing is old enough to go)
 								_ = st.VisitMailboxes(func(ms []storage.Message) bool { return true })
@@ -162,6 +211,7 @@ func c16OrdScenario(c *fw.Ctx, sp c16OrdSpec) schedScenario {
 						}
 						finalOK = true
 					})
+					vsched.FSFault = nil
 					s.Close()
 				}
 			})
@@ -197,6 +247,13 @@ func c16OrdScenario(c *fw.Ctx, sp c16OrdSpec) schedScenario {
 			order = append(order, fmt.Sprintf("%s(#%d)", in.kind, ord[in.id]))
 		}
 		res.Outcome = strings.Join(order, " ")
+		if sp.FaultAt > 0 {
+			if fired == "" {
+				res.Outcome += " [no fault: fewer calls]"
+			} else {
+				res.Outcome += " [failed: " + fired + "]"
+			}
+		}
 		// (1) no overlap: an invocation may only start after every earlier one has finished
 		for i, a := range invs {
 			for _, b := range invs[i+1:] {
@@ -230,8 +287,22 @@ func c16OrdScenario(c *fw.Ctx, sp c16OrdSpec) schedScenario {
 				return res
 			}
 		}
-		// (3) accounting: every announced message that has left has its 'deleted' event, none that stayed
+		// (3) accounting: every announced message that has left has its 'deleted' event, none that stayed;
+		// nothing is announced as deleted that was never announced as stored, and what is listed at
+		// the end was announced
+		for _, in := range invs {
+			if in.kind == "deleted" && !seenEv["stored"+in.id] {
+				res.Probs = append(res.Probs, [2]string{"deleted-phantom", fmt.Sprintf("a 'deleted' event was emitted for %s, which was never announced as stored: %s", in.id, res.Outcome)})
+				return res
+			}
+		}
 		if finalOK {
+			for id := range final {
+				if !seenEv["stored"+id] {
+					res.Probs = append(res.Probs, [2]string{"stored-missing", fmt.Sprintf("message %s is listed in its mailbox but no 'stored' event was ever emitted for it: %s", id, res.Outcome)})
+					return res
+				}
+			}
 			for _, in := range invs {
 				if in.kind != "stored" {
 					continue
